@@ -31,6 +31,7 @@
 #include "token.h"
 #include "utils.h"
 #include "valueflow.h"
+#include "vf_common.h"
 #include "valueptr.h"
 #include "vfvalue.h"
 
@@ -1186,6 +1187,25 @@ bool isStructuredBindingVariable(const Variable* var)
 /// This takes a token that refers to a variable and it will return the token
 /// to the expression that the variable is assigned to. If its not valid to
 /// make such substitution then it will return the original token.
+// Can every value of the integer type src be represented in the integer type dst?
+static bool canRepresentAllValues(const ValueType& dst, const ValueType& src, const Settings& settings)
+{
+    if (dst.type == src.type && dst.sign == src.sign)
+        return true;
+    if (dst.type == ValueType::Type::BOOL)
+        return false;
+    if (src.type == ValueType::Type::BOOL)
+        return true;
+    const size_t dstSize = dst.getSizeOf(settings, ValueType::Accuracy::ExactOrZero, ValueType::SizeOf::Pointee);
+    const size_t srcSize = src.getSizeOf(settings, ValueType::Accuracy::ExactOrZero, ValueType::SizeOf::Pointee);
+    if (dstSize == 0 || srcSize == 0)
+        return false;
+    if (dst.sign == src.sign && dst.sign != ValueType::Sign::UNKNOWN_SIGN)
+        return dstSize >= srcSize;
+    // an unsigned or plain char source needs a wider signed type, negative values have no unsigned representation
+    return dst.sign == ValueType::Sign::SIGNED && dstSize > srcSize;
+}
+
 static const Token * followVariableExpression(const Settings& settings, const Token * tok, const Token * end = nullptr)
 {
     if (!tok)
@@ -1223,6 +1243,17 @@ static const Token * followVariableExpression(const Settings& settings, const To
     // assigning a floating point value to an integer does not preserve the value
     if (var->valueType() && var->valueType()->isIntegral() && varTok->valueType() && varTok->valueType()->isFloat())
         return tok;
+    // initialising an integer variable with a value that its type cannot represent does not preserve the value
+    if (var->valueType() && var->valueType()->isIntegral() && var->valueType()->pointer == 0 &&
+        varTok->valueType() && varTok->valueType()->isIntegral() && varTok->valueType()->pointer == 0 &&
+        !canRepresentAllValues(*var->valueType(), *varTok->valueType(), settings)) {
+        MathLib::bigint minValue = 0;
+        MathLib::bigint maxValue = 0;
+        if (!varTok->hasKnownIntValue() ||
+            !ValueFlow::getMinMaxValues(var->valueType(), settings.platform, minValue, maxValue) ||
+            varTok->getKnownIntValue() < minValue || varTok->getKnownIntValue() > maxValue)
+            return tok;
+    }
     const Token * lastTok = precedes(tok, end) ? end : tok;
     // If this is in a loop then check if variables are modified in the entire scope
     const Token * endToken = (isInLoopCondition(tok) || isInLoopCondition(varTok) || var->scope() != tok->scope()) ? var->scope()->bodyEnd : lastTok;
